@@ -196,6 +196,10 @@ class Explorer:
                 self.stats["transitions"] += 1
                 try:
                     o.table = I.apply_event(ctx.tables[-1], ev, ctx)
+                except I.NotApplicable as e:
+                    o.exc, o.where, o.status = e, "verb", "refused"
+                    self.stats[f"not_applicable:{b}:{ev[0]}"] += 1
+                    continue
                 except Exception as e:  # noqa: BLE001
                     o.exc = e
                     o.where = "verb"
